@@ -376,7 +376,8 @@ func c16GRPC(c *ctx) {
 		method, dsthost, wantBackend := "", "", ""
 		switch route {
 		case "alpha":
-			method, wantBackend = "/pkg.Alpha/"+choose(r, []string{"Get", "Stream_1"}), "alpha"
+			// (a method path is a name, not a URL: a percent sign or a question mark in it means nothing)
+			method, wantBackend = "/pkg.Alpha/"+choose(r, []string{"Get", "Stream_1", "Get", "Stream_1", "Get%41", "Get%", "Do?x=1"}), "alpha"
 		case "beta":
 			method, dsthost, wantBackend = "/pkg.Shared/Do", choose(r, []string{"beta.test", "BETA.test"}), "beta"
 		case "gamma":
@@ -384,7 +385,7 @@ func c16GRPC(c *ctx) {
 		case "gamma-wronghost":
 			method, dsthost, wantBackend = "/pkg.Shared/Do", "other.test", "gamma" // unknown host falls back to the host-less route
 		case "none":
-			method = "/pkg.Nothing/Here"
+			method = choose(r, []string{"/pkg.Nothing/Here", "/pkg.Nothing/Here", "/pkg.Nothing/Here%", "/pkg.Alph%61/Get"})
 		case "delta":
 			method, wantBackend = "/pkg.Delta/Secure", "delta"
 		}
